@@ -300,3 +300,227 @@ Proof.
         intros j E. split; [|exact (proj2 (C j E))]. intros X. cbn in X. inversion X; subst. contradiction.
 Qed.
 End Safe.
+
+(** * Invariant of the interleaved system, for every schedule and every fault pattern *)
+Section System.
+Variable c : cfg.
+Hypothesis Hsafe : cfg_safe c = true.
+Variable d0 : dir.
+Variables s1 s2 : scen.
+Hypothesis Hdest : dest s1 <> dest s2.
+
+Record Inv (st : sys) : Prop := {
+  inv_own1 : Own d0 s1 (p1 st) (sd st);
+  inv_own2 : Own d0 s2 (p2 st) (sd st);
+  inv_disj : Disj (p1 st) (p2 st);
+  inv_dest1 : DestOk d0 s1 (p1 st) (sd st);
+  inv_dest2 : DestOk d0 s2 (p2 st) (sd st);
+  inv_frame : Frame d0 s1 s2 (p1 st) (p2 st) (sd st)
+}.
+
+Lemma inv_step st wf : Inv st -> Inv (step2 c s1 s2 st wf).
+Proof.
+  intros [O1 O2 Dj D1 D2 Fr]. destruct wf as [who f]. unfold step2. destruct who.
+  - destruct (wstep c s2 (p2 st) (sd st) f) as [[p' d'] e] eqn:E.
+    destruct (step_one c Hsafe d0 s2 s1 (p2 st) (p1 st) (sd st) f p' d' e) as (A & B & C & D & F & G); auto.
+    + apply Disj_sym. exact Dj.
+    + apply Frame_sym. exact Fr.
+    + constructor; cbn; auto. * apply Disj_sym. exact C. * apply Frame_sym. exact G.
+  - destruct (wstep c s1 (p1 st) (sd st) f) as [[p' d'] e] eqn:E.
+    destruct (step_one c Hsafe d0 s1 s2 (p1 st) (p2 st) (sd st) f p' d' e) as (A & B & C & D & F & G); auto.
+    constructor; cbn; auto.
+Qed.
+
+Lemma inv_run sched : forall st, Inv st -> Inv (run2 c s1 s2 sched st).
+Proof.
+  unfold run2. induction sched as [|wf r IH]; intros st H; cbn [fold_left]; [exact H|].
+  apply IH. apply inv_step. exact H.
+Qed.
+
+Lemma inv_init st :
+  sd st = d0 -> assoc (p1 st) = None -> assoc (p2 st) = None ->
+  committed (p1 st) = false -> committed (p2 st) = false -> Inv st.
+Proof.
+  intros Hd A1 A2 C1 C2. constructor.
+  - intros i H. congruence.
+  - intros i H. congruence.
+  - intros i H. congruence.
+  - unfold DestOk. rewrite C1, Hd. reflexivity.
+  - unfold DestOk. rewrite C2, Hd. reflexivity.
+  - intros n _ _ _. rewrite Hd. reflexivity.
+Qed.
+
+Lemma inv_start : Inv (start d0).
+Proof. apply inv_init; reflexivity. Qed.
+Lemma inv_start1 : Inv (start1 d0).
+Proof. apply inv_init; reflexivity. Qed.
+
+(** ** Writers that cannot commit any more *)
+Definition doomed (p : pc) : bool :=
+  match p with
+  | PCloseFd _ true _ | PCloseFd _ _ true | PUnlink _ | PDone FNot _ => true
+  | _ => false
+  end.
+
+Lemma doomed_not_committed p : doomed p = true -> committed p = false.
+Proof. destruct p as [| | | | ? [] []| | |[] ?]; cbn; congruence. Qed.
+
+Lemma doomed_step s p d f p' d' e :
+  doomed p = true -> wstep c s p d f = (p', d', e) -> doomed p' = true.
+Proof.
+  intros Hd H. destruct p as [|i|i k|i j|i exc failed|i|i|r l]; cbn in Hd; try discriminate; cbn [wstep] in H.
+  - destruct (f || failed) eqn:B.
+    + inversion H; subst. destruct (c_close_guard c); reflexivity.
+    + apply orb_false_iff in B. destruct B as [-> ->]. destruct exc; [|discriminate].
+      inversion H; subst. rewrite (safe_exc c Hsafe). reflexivity.
+  - destruct f; [inversion H; subst; reflexivity|].
+    destruct (d (Tmp i)); inversion H; subst; reflexivity.
+  - destruct r; [discriminate|]. inversion H; subst. reflexivity.
+Qed.
+
+Lemma fault_dooms s p d f p' d' o :
+  wstep c s p d f = (p', d', Some (o, RFault)) -> doomed p' = true.
+Proof.
+  intros H. destruct p as [|i|i k|i j|i exc failed|i|i|r l]; cbn [wstep] in H.
+  - destruct f; inversion H; subst; reflexivity.
+  - destruct f; [inversion H; subst; reflexivity|].
+    destruct (c_excl c && is_some (d (Tmp i))); inversion H.
+  - destruct f; inversion H; subst; reflexivity.
+  - destruct f; inversion H; subst; reflexivity.
+  - destruct f; cbn [orb] in H.
+    + inversion H; subst. destruct (c_close_guard c); reflexivity.
+    + destruct failed; inversion H.
+  - destruct f.
+    + inversion H; subst. destruct (c_replace_guard c); reflexivity.
+    + destruct (d (Tmp i)); inversion H.
+  - destruct f; [inversion H; subst; reflexivity|]. destruct (d (Tmp i)); inversion H.
+  - inversion H.
+Qed.
+
+Definition faulted (who : bool) (t : list (bool * event)) : Prop := exists o, In (who, (o, RFault)) t.
+
+Lemma fault_doom_run sched : forall st,
+  (faulted false (tr st) -> doomed (p1 st) = true) ->
+  (faulted false (tr (run2 c s1 s2 sched st)) -> doomed (p1 (run2 c s1 s2 sched st)) = true).
+Proof.
+  unfold run2. induction sched as [|[who f] r IH]; intros st H; cbn [fold_left]; [exact H|].
+  apply IH. unfold step2. destruct who.
+  - destruct (wstep c s2 (p2 st) (sd st) f) as [[p' d'] e] eqn:E. cbn [tr p1].
+    intros [o Ho]. apply H. exists o. destruct e as [e|]; [|exact Ho].
+    apply in_app_or in Ho. destruct Ho as [Ho|Ho]; [exact Ho|]. cbn in Ho. destruct Ho as [Ho|[]]. inversion Ho.
+  - destruct (wstep c s1 (p1 st) (sd st) f) as [[p' d'] e] eqn:E. cbn [tr p1].
+    intros [o Ho]. destruct e as [e|].
+    + apply in_app_or in Ho. destruct Ho as [Ho|Ho].
+      * eapply doomed_step; [|exact E]. apply H. exists o. exact Ho.
+      * cbn in Ho. destruct Ho as [Ho|[]]. inversion Ho; subst. eapply fault_dooms. exact E.
+    + eapply doomed_step; [|exact E]. apply H. exists o. exact Ho.
+Qed.
+
+(** ** A body that raises after [r] raw writes never reaches the commit *)
+Definition pre_raise (r : nat) (p : pc) : Prop :=
+  match p with
+  | PMkdir | POpen _ => True
+  | PBody _ k => k < r
+  | _ => doomed p = true
+  end.
+
+Lemma pre_raise_after_body s i k r :
+  raise_at s = Some r -> r <= length (body s) -> k <= r -> pre_raise r (after_body s i k).
+Proof.
+  intros Hr Hle Hk. unfold after_body, raises_here. rewrite Hr.
+  destruct (Nat.eqb r k) eqn:E; [reflexivity|]. apply Nat.eqb_neq in E.
+  assert (k < length (body s)) as L by lia. apply Nat.ltb_lt in L. rewrite L. cbn. lia.
+Qed.
+
+Lemma pre_raise_step s r p d f p' d' e :
+  raise_at s = Some r -> r <= length (body s) ->
+  pre_raise r p -> wstep c s p d f = (p', d', e) -> pre_raise r p'.
+Proof.
+  intros Hr Hle Hp H.
+  destruct p as [|i|i k|i j|i exc failed|i|i|rr l]; cbn [pre_raise] in Hp;
+    try (pose proof (doomed_step _ _ _ _ _ _ _ Hp H) as D; destruct p'; cbn [pre_raise]; cbn in D; try discriminate; auto; fail).
+  - cbn [wstep] in H. destruct f; inversion H; subst; reflexivity.
+  - cbn [wstep] in H. destruct f; [inversion H; subst; reflexivity|].
+    destruct (c_excl c && is_some (d (Tmp i))); inversion H; subst; [exact I|].
+    apply pre_raise_after_body; auto. lia.
+  - cbn [wstep] in H. destruct f; inversion H; subst; [reflexivity|].
+    apply pre_raise_after_body; auto.
+Qed.
+
+Lemma pre_raise_not_committed r p : pre_raise r p -> committed p = false.
+Proof. destruct p as [| | | | | | |[] ?]; cbn; auto; intros; try discriminate. Qed.
+
+Lemma pre_raise_run r sched : raise_at s1 = Some r -> r <= length (body s1) -> forall st,
+  pre_raise r (p1 st) -> pre_raise r (p1 (run2 c s1 s2 sched st)).
+Proof.
+  intros Hr Hle. unfold run2. induction sched as [|[who f] rest IH]; intros st H; cbn [fold_left]; [exact H|].
+  apply IH. unfold step2. destruct who.
+  - destruct (wstep c s2 (p2 st) (sd st) f) as [[p' d'] e]. exact H.
+  - destruct (wstep c s1 (p1 st) (sd st) f) as [[p' d'] e] eqn:E. cbn [p1].
+    eapply pre_raise_step; eauto.
+Qed.
+
+(** ** A temp file is left behind only by a failing unlink (needs the guards) *)
+Hypothesis Hclean : cfg_clean c = true.
+
+Lemma clean_close : c_close_guard c = true.
+Proof. unfold cfg_clean in Hclean. destruct (c_close_guard c); [reflexivity | discriminate]. Qed.
+Lemma clean_replace : c_replace_guard c = true.
+Proof.
+  unfold cfg_clean in Hclean. destruct (c_close_guard c); [|discriminate].
+  destruct (c_replace_guard c); [reflexivity | discriminate].
+Qed.
+Lemma clean_ok : c_on_ok c = ACommit.
+Proof.
+  unfold cfg_clean in Hclean. apply andb_true_iff in Hclean. destruct Hclean as [_ H].
+  destruct (c_on_ok c); [reflexivity | discriminate | discriminate].
+Qed.
+
+Lemma wstep_left s p d f r i d' e :
+  wstep c s p d f = (PDone r (Some i), d', e) ->
+  (p = PDone r (Some i) /\ e = None) \/ e = Some (EUnlink i, RFault).
+Proof.
+  intros H. destruct p as [|i0|i0 k|i0 j|i0 exc failed|i0|i0|rr l]; cbn [wstep] in H.
+  - destruct f; inversion H.
+  - destruct f; [inversion H|]. destruct (c_excl c && is_some (d (Tmp i0))); [inversion H|].
+    exfalso. inversion H as [[A B C]]. pose proof (assoc_after_body s i0 0) as X. rewrite A in X.
+    unfold after_body in A. destruct (raises_here s 0); [discriminate|].
+    destruct (0 <? length (body s)); [discriminate|]. unfold after_tail in A.
+    destruct (0 <? length (tail s)); discriminate.
+  - destruct f; [inversion H|]. exfalso. inversion H as [[A B C]].
+    unfold after_body in A. destruct (raises_here s (S k)); [discriminate|].
+    destruct (S k <? length (body s)); [discriminate|]. unfold after_tail in A.
+    destruct (0 <? length (tail s)); discriminate.
+  - destruct f; [inversion H|]. exfalso. inversion H as [[A B C]].
+    unfold after_tail in A. destruct (S j <? length (tail s)); discriminate.
+  - rewrite clean_close in H. destruct (f || failed); [inversion H|].
+    exfalso. destruct exc.
+    + rewrite (safe_exc c Hsafe) in H. inversion H.
+    + rewrite clean_ok in H. inversion H.
+  - rewrite clean_replace in H. destruct f; [inversion H|]. destruct (d (Tmp i0)); inversion H.
+  - destruct f; [inversion H; subst; right; reflexivity|]. destruct (d (Tmp i0)); inversion H.
+  - inversion H; subst. left. auto.
+Qed.
+
+Definition LeftOk (who : bool) (p : pc) (t : list (bool * event)) : Prop :=
+  forall r i, p = PDone r (Some i) -> In (who, (EUnlink i, RFault)) t.
+
+Lemma left_run sched : forall st,
+  LeftOk false (p1 st) (tr st) /\ LeftOk true (p2 st) (tr st) ->
+  LeftOk false (p1 (run2 c s1 s2 sched st)) (tr (run2 c s1 s2 sched st)) /\
+  LeftOk true (p2 (run2 c s1 s2 sched st)) (tr (run2 c s1 s2 sched st)).
+Proof.
+  unfold run2. induction sched as [|[who f] rest IH]; intros st [L1 L2]; cbn [fold_left]; [auto|].
+  apply IH. unfold step2. destruct who.
+  - destruct (wstep c s2 (p2 st) (sd st) f) as [[p' d'] e] eqn:E. cbn [p1 p2 tr]. split.
+    + intros r i Hp. specialize (L1 r i Hp). destruct e; [apply in_or_app; left|]; exact L1.
+    + intros r i Hp. subst p'. destruct (wstep_left _ _ _ _ _ _ _ _ E) as [[A B]|B]; subst e.
+      * exact (L2 r i A).
+      * apply in_or_app. right. left. reflexivity.
+  - destruct (wstep c s1 (p1 st) (sd st) f) as [[p' d'] e] eqn:E. cbn [p1 p2 tr]. split.
+    + intros r i Hp. subst p'. destruct (wstep_left _ _ _ _ _ _ _ _ E) as [[A B]|B]; subst e.
+      * exact (L1 r i A).
+      * apply in_or_app. right. left. reflexivity.
+    + intros r i Hp. specialize (L2 r i Hp). destruct e; [apply in_or_app; left|]; exact L2.
+Qed.
+End System.
